@@ -1,13 +1,440 @@
 package main
 
 import (
+	"encoding/json"
 	"fmt"
+	"os"
+	"os/exec"
+	"path/filepath"
+	"sort"
+	"strings"
 	"time"
 )
 
+type replayFileOut struct {
+	Harness string            `json:"harness"`
+	Label   string            `json:"label"`
+	Kind    string            `json:"kind"`
+	Params  map[string]string `json:"params"`
+	Draws   []DrawValue       `json:"draws"`
+	KFOpen  []string          `json:"kf_open"`
+}
+
+type replayResult struct {
+	Harness  string   `json:"harness"`
+	Failed   []string `json:"failed"`
+	Known    []string `json:"known"`
+	Reached  []string `json:"reached"`
+	Diverged string   `json:"diverged,omitempty"`
+	Panic    string   `json:"panic,omitempty"`
+	Missing  bool     `json:"missing_harness,omitempty"`
+}
+
+type pendingReplay struct {
+	file   string
+	pkg    string
+	label  string
+	kind   string // assert|panic|fail|reach|deadlock
+	isViol bool
+	viol   *Violation
+	res    *replayResult
+	err    string
+}
+
+func sanitize(s string) string {
+	r := strings.NewReplacer("/", "_", " ", "_", ":", "_", "(", "", ")", "", "*", "", "\"", "")
+	s = r.Replace(s)
+	if len(s) > 80 {
+		s = s[:80]
+	}
+	return s
+}
+
+// harnessFuncs lists the Verif_ functions of each instrumented package (for the generated replay test).
+func (e *Engine) harnessFuncs() map[string][]string {
+	out := map[string][]string{}
+	for _, p := range e.pkgs {
+		path := p.Pkg.Path()
+		if !strings.HasPrefix(path, modPath) || path == verifPkg {
+			continue
+		}
+		rel := strings.TrimPrefix(strings.TrimPrefix(path, modPath), "/")
+		if rel == "" {
+			rel = "."
+		}
+		for name, m := range p.Members {
+			if strings.HasPrefix(name, "Verif_") {
+				if _, ok := m.(interface{ Name() string }); ok {
+					out[rel] = append(out[rel], name)
+				}
+			}
+		}
+		sort.Strings(out[rel])
+	}
+	return out
+}
+
+// runReplays executes the replay files natively: one `go test -overlay` per package.
+func runReplays(e *Engine, repo, hdir string, reps []*pendingReplay) {
+	if len(reps) == 0 {
+		return
+	}
+	tmp, err := os.MkdirTemp("", "symgo-replay-")
+	if err != nil {
+		for _, r := range reps {
+			r.err = err.Error()
+		}
+		return
+	}
+	defer os.RemoveAll(tmp)
+	_, _, files, err := buildOverlay(repo, hdir)
+	if err != nil {
+		for _, r := range reps {
+			r.err = err.Error()
+		}
+		return
+	}
+	byPkg := map[string][]*pendingReplay{}
+	for _, r := range reps {
+		byPkg[r.pkg] = append(byPkg[r.pkg], r)
+	}
+	hf := e.harnessFuncs()
+	for pkg, rs := range byPkg {
+		replace := map[string]string{}
+		for v, real := range files {
+			replace[v] = real
+		}
+		// generated test file
+		pkgName := ""
+		if sp := e.prog.ImportedPackage(modPath + "/" + pkg); sp != nil {
+			pkgName = sp.Pkg.Name()
+		} else if pkg == "." {
+			pkgName = e.prog.ImportedPackage(modPath).Pkg.Name()
+		}
+		var sb strings.Builder
+		fmt.Fprintf(&sb, "package %s\n\nimport (\n\t\"testing\"\n\n\tV \"%s\"\n)\n\n", pkgName, verifPkg)
+		sb.WriteString("func TestVerifReplay(t *testing.T) {\n\tV.ReplayAll(t, map[string]func(){\n")
+		for _, f := range hf[pkg] {
+			fmt.Fprintf(&sb, "\t\t%q: %s,\n", f, f)
+		}
+		sb.WriteString("\t})\n}\n")
+		tf := filepath.Join(tmp, sanitize(pkg)+"_replay_test.go")
+		os.WriteFile(tf, []byte(sb.String()), 0o644)
+		replace[filepath.Join(repo, pkg, "zz_verif_replay_test.go")] = tf
+		ovData, _ := json.Marshal(map[string]interface{}{"Replace": replace})
+		ovPath := filepath.Join(tmp, sanitize(pkg)+"_ov.json")
+		os.WriteFile(ovPath, ovData, 0o644)
+		var names []string
+		for _, r := range rs {
+			names = append(names, r.file)
+			os.Remove(r.file + ".out")
+		}
+		target := "./" + pkg
+		cmd := exec.Command("go", "test", "-vet=off", "-count=1", "-timeout", "300s", "-run", "^TestVerifReplay$", "-overlay", ovPath, target)
+		cmd.Dir = repo
+		cmd.Env = append(os.Environ(), "GOFLAGS=-mod=mod", "GOPROXY=off", "VERIF_REPLAY_FILES="+strings.Join(names, ","))
+		out, err := cmd.CombinedOutput()
+		for _, r := range rs {
+			data, rerr := os.ReadFile(r.file + ".out")
+			if rerr != nil {
+				msg := "native replay produced no outcome"
+				if err != nil {
+					msg += ": " + err.Error()
+				}
+				tail := string(out)
+				if len(tail) > 1500 {
+					tail = tail[len(tail)-1500:]
+				}
+				r.err = msg + "\n" + tail
+				continue
+			}
+			var rr replayResult
+			if jerr := json.Unmarshal(data, &rr); jerr != nil {
+				r.err = jerr.Error()
+				continue
+			}
+			r.res = &rr
+			os.Remove(r.file + ".out")
+		}
+	}
+}
+
+func contains(l []string, s string) bool {
+	for _, x := range l {
+		if x == s {
+			return true
+		}
+	}
+	return false
+}
+
 func finishCheck(e *Engine, spec *CheckSpec, tier string, ts TierSpec, jobs []*Job, known []KnownFinding, evidencePath, replayDir, repo, hdir string, noReplay bool, t0 time.Time, loadS float64) int {
+	prop := spec.Property
+	var kfOpen []string
+	kfWhat := map[string]string{}
+	for _, k := range known {
+		if k.Status == "open" {
+			kfOpen = append(kfOpen, k.ID)
+			kfWhat[k.ID] = k.What
+		}
+	}
+	rdir := filepath.Join(replayDir, prop)
+	os.MkdirAll(rdir, 0o755)
+	// stale replay files of this tier
+	if old, _ := filepath.Glob(filepath.Join(rdir, tier+"-*.json")); old != nil {
+		for _, f := range old {
+			os.Remove(f)
+		}
+	}
+	var reps []*pendingReplay
+	nrep := 0
+	mkReplay := func(j *Job, spkg, label, kind string, draws []DrawValue, v *Violation) *pendingReplay {
+		nrep++
+		f := filepath.Join(rdir, fmt.Sprintf("%s-%s-%s-%d.json", tier, sanitize(j.Harness), sanitize(label), nrep))
+		rf := replayFileOut{Harness: j.Harness, Label: label, Kind: kind, Params: j.Params, Draws: draws, KFOpen: kfOpen}
+		data, _ := json.MarshalIndent(rf, "", " ")
+		os.WriteFile(f, data, 0o644)
+		return &pendingReplay{file: f, pkg: spkg, label: label, kind: kind, isViol: v != nil, viol: v}
+	}
+	for i, j := range jobs {
+		spkg := ts.Jobs[i].Pkg
+		for vi := range j.violations {
+			v := &j.violations[vi]
+			reps = append(reps, mkReplay(j, spkg, v.Label, v.Kind, v.Draws, v))
+		}
+		// reachability witnesses (vacuity guard + validation of the encoding against the implementation)
+		labels := make([]string, 0, len(j.reach))
+		for l := range j.reach {
+			labels = append(labels, l)
+		}
+		sort.Strings(labels)
+		for _, l := range labels {
+			reps = append(reps, mkReplay(j, spkg, l, "reach", j.reach[l].Draws, nil))
+		}
+	}
+	if !noReplay {
+		runReplays(e, repo, hdir, reps)
+	}
+	// ---- verdicts ----
+	var violLines, knownLines, inconc []string
+	validated := 0
+	confirmedViol := 0
+	for _, r := range reps {
+		if noReplay {
+			if r.isViol {
+				violLines = append(violLines, fmt.Sprintf("VIOLATION property=%s replay=%s label=%s (not replayed)", prop, r.file, r.label))
+				confirmedViol++
+			}
+			continue
+		}
+		if r.err != "" {
+			inconc = append(inconc, "replay error for "+r.file+": "+r.err)
+			continue
+		}
+		rr := r.res
+		if rr.Diverged != "" {
+			inconc = append(inconc, "ENCODING-DIVERGENCE "+r.file+": "+rr.Diverged)
+			continue
+		}
+		if r.isViol {
+			ok := false
+			switch r.kind {
+			case "panic":
+				ok = rr.Panic != ""
+			case "deadlock":
+				ok = true // cannot be observed natively without hanging; reported as is
+			default:
+				ok = contains(rr.Failed, r.label)
+			}
+			if ok {
+				validated++
+				confirmedViol++
+				violLines = append(violLines, fmt.Sprintf("VIOLATION property=%s replay=%s label=%s harness=%s", prop, r.file, r.label, r.viol.Harness))
+			} else {
+				inconc = append(inconc, fmt.Sprintf("ENCODING-DIVERGENCE %s: solver model for %s does not reproduce natively (failed=%v panic=%q)", r.file, r.label, rr.Failed, rr.Panic))
+			}
+		} else {
+			if contains(rr.Reached, r.label) {
+				validated++
+				os.Remove(r.file) // witness validated; keep the directory small
+			} else {
+				inconc = append(inconc, fmt.Sprintf("ENCODING-DIVERGENCE %s: reach mark %s not hit natively (reached=%v panic=%q)", r.file, r.label, rr.Reached, rr.Panic))
+			}
+		}
+	}
+	knownSeen := map[string]int{}
 	for _, j := range jobs {
-		fmt.Printf("%+v\n", j.report())
+		for k, n := range j.knownHits {
+			knownSeen[k] += n
+		}
+		for _, m := range j.inconclusive {
+			inconc = append(inconc, j.Harness+": "+m)
+		}
+		if j.paths["return"]+j.paths["assert-stop"]+j.paths["assume-false"] == 0 && len(j.inconclusive) == 0 {
+			inconc = append(inconc, j.Harness+": no path completed")
+		}
+	}
+	ks := make([]string, 0, len(knownSeen))
+	for k := range knownSeen {
+		ks = append(ks, k)
+	}
+	sort.Strings(ks)
+	for _, k := range ks {
+		knownLines = append(knownLines, fmt.Sprintf("KNOWN-FINDING: property=%s %s %s", prop, k, kfWhat[k]))
+	}
+	// ---- evidence ----
+	states, transitions, nq := 0, 0, map[string]int{}
+	symPaths := 0
+	brute, quick := 0, 0
+	var solverS, wallJobs float64
+	funcs := map[string]int{}
+	asserts := map[string]*AssertStat{}
+	reachTotal := map[string]int{}
+	var samples []interface{}
+	var jobReports []jobReport
+	for _, j := range jobs {
+		rp := j.report()
+		jobReports = append(jobReports, rp)
+		for _, n := range j.paths {
+			states += n
+		}
+		transitions += j.forks
+		symPaths += j.symPaths
+		brute += j.brute
+		quick += j.quick
+		nq["sat"] += j.nq[Sat]
+		nq["unsat"] += j.nq[Unsat]
+		nq["unknown"] += j.nq[Unknown]
+		solverS += j.solveTime.Seconds()
+		wallJobs += j.wall.Seconds()
+		for f, n := range j.funcs {
+			funcs[f] += n
+		}
+		for l, a := range j.asserts {
+			t := asserts[l]
+			if t == nil {
+				t = &AssertStat{}
+				asserts[l] = t
+			}
+			t.Proved += a.Proved
+			t.Failed += a.Failed
+			t.Unknown += a.Unknown
+			t.Trivial += a.Trivial
+		}
+		for l, n := range j.reachCount {
+			reachTotal[l] += n
+		}
+		if len(samples) < 6 {
+			for l, d := range j.reach {
+				samples = append(samples, map[string]interface{}{"harness": j.Harness, "params": j.Params, "reach_mark": l, "model": d.Draws})
+				break
+			}
+		}
+	}
+	if len(samples) == 0 {
+		samples = append(samples, map[string]interface{}{"note": "no reach mark recorded"})
+	}
+	var fl []string
+	for f := range funcs {
+		if !strings.HasPrefix(f, verifPkg) {
+			fl = append(fl, f)
+		}
+	}
+	sort.Strings(fl)
+	if states < 1 {
+		states = 1
+	}
+	if transitions < 1 {
+		transitions = 1
+	}
+	seed := 0
+	fmt.Sscan(os.Getenv("VERIF_SEED"), &seed)
+	bounds := map[string]string{}
+	for k, v := range spec.Bounds {
+		bounds[k] = v
+	}
+	for k, v := range ts.Bounds {
+		bounds[k] = v
+	}
+	ev := map[string]interface{}{
+		"property_id": prop,
+		"tier":        tier,
+		"seed":        seed,
+		"level":       "model_checking",
+		"wall_s":      time.Since(t0).Seconds(),
+		"violations":  confirmedViol,
+		"assumptions": spec.Assumptions,
+		"coverage": map[string]interface{}{
+			"states":                        states,
+			"transitions":                   transitions,
+			"traces_validated_against_impl": validated,
+			"samples":                       samples,
+			"evaluations":                   nq["sat"] + nq["unsat"] + nq["unknown"],
+			"distinct_nontrivial":           symPaths,
+			"rule":                          "states = terminal symbolic paths of the real SSA explored by DFS; transitions = path forks; evaluations = feasibility/assertion queries discharged (solver or exhaustive enumeration of slices of <=16 bits); distinct_nontrivial = terminal paths whose path condition mentions at least one symbolic input (counted)",
+			"exhaustive":                    false,
+			"functions_encoded":             fl,
+			"functions_encoded_count":       len(fl),
+			"bounds":                        bounds,
+			"outside_bounds":                spec.Outside,
+			"queries":                       nq,
+			"decided_by_enumeration":        brute,
+			"decided_by_intervals":          quick,
+			"solver_time_s":                 solverS,
+			"load_and_ssa_build_s":          loadS,
+			"job_cpu_wall_s":                wallJobs,
+			"solvers":                       []string{"z3 5.1.0 (z3-new)", "cvc5 1.0"},
+			"models_used":                   spec.Models,
+			"assertions":                    asserts,
+			"reach_marks":                   reachTotal,
+			"known_findings_hit":            knownSeen,
+			"inconclusive":                  inconc,
+			"unwinding_limit_hit":           false,
+			"jobs":                          jobReports,
+		},
+	}
+	for _, m := range inconc {
+		if strings.Contains(m, "unwinding") {
+			ev["coverage"].(map[string]interface{})["unwinding_limit_hit"] = true
+		}
+	}
+	if evidencePath != "" {
+		os.MkdirAll(filepath.Dir(evidencePath), 0o755)
+		data, _ := json.MarshalIndent(ev, "", " ")
+		os.WriteFile(evidencePath, data, 0o644)
+	}
+	// ---- output ----
+	for _, l := range knownLines {
+		fmt.Println(l)
+	}
+	for _, l := range violLines {
+		fmt.Println(l)
+	}
+	fmt.Printf("%s %s: %d jobs, %d paths, %d forks, queries sat=%d unsat=%d unknown=%d, %d native replays validated, %.1fs\n",
+		prop, tier, len(jobs), states, transitions, nq["sat"], nq["unsat"], nq["unknown"], validated, time.Since(t0).Seconds())
+	labels := make([]string, 0, len(asserts))
+	for l := range asserts {
+		labels = append(labels, l)
+	}
+	sort.Strings(labels)
+	for _, l := range labels {
+		a := asserts[l]
+		fmt.Printf("  assert %-34s proved=%d trivially-true=%d failed=%d unknown=%d\n", l, a.Proved, a.Trivial, a.Failed, a.Unknown)
+	}
+	if confirmedViol > 0 {
+		return 1
+	}
+	if len(inconc) > 0 {
+		for i, m := range inconc {
+			if i > 12 {
+				break
+			}
+			if len(m) > 600 {
+				m = m[:600]
+			}
+			fmt.Println("INCONCLUSIVE:", m)
+		}
+		return 2
 	}
 	return 0
 }
